@@ -227,4 +227,207 @@ example : getPageImages
         (K_ColorSpace, .arr [.name [82]])] [])] (3, 0)
     = .ok [⟨(30, 0), 1, 2, true, none, 0⟩] := by decide
 
+/-! ## build_outline_result / get_outline / get_outlines -/
+
+/-- the destination `build_outline_result` finally inspects -/
+def resolveDest (os : Objects) (dest : Obj) : Option Obj :=
+  match dest with
+  | .ref a b => getObject os (a, b)
+  | d => some d
+
+theorem buildDirect_panic_iff (dest title : Obj) (named : Named) (s : String) :
+    buildDirect dest title named = .panic s ↔
+      (dest = .arr [] ∧ s = S_OUTLINE_0) ∨ (∃ x, dest = .arr [x] ∧ s = S_OUTLINE_1) := by
+  unfold buildDirect
+  split
+  · split
+    · simp; exact eq_comm
+    · simp; exact eq_comm
+    · simp
+  · split <;> simp
+  · rename_i h1 h2
+    constructor
+    · intro h; simp at h
+    · rintro (⟨h, _⟩ | ⟨x, h, _⟩) <;> exact (h1 _ h).elim
+
+/-- **exact panic condition of `build_outline_result`** (F-C13-c): it panics iff the destination,
+after following a reference, is an array with fewer than two elements -/
+theorem buildOutlineResult_panic_iff (os : Objects) (dest title : Obj) (named : Named) :
+    (∃ s, buildOutlineResult os dest title named = .panic s) ↔
+      ∃ a, resolveDest os dest = some (.arr a) ∧ a.length < 2 := by
+  have key : ∀ d : Obj, (∃ s, buildDirect d title named = .panic s) ↔ ∃ a, d = .arr a ∧ a.length < 2 := by
+    intro d
+    constructor
+    · rintro ⟨s, h⟩
+      rcases (buildDirect_panic_iff d title named s).mp h with ⟨h1, _⟩ | ⟨x, h1, _⟩
+      · exact ⟨[], h1, by simp⟩
+      · exact ⟨[x], h1, by simp⟩
+    · rintro ⟨a, h1, h2⟩
+      match a, h2 with
+      | [], _ => exact ⟨_, (buildDirect_panic_iff d title named _).mpr (Or.inl ⟨h1, rfl⟩)⟩
+      | [x], _ => exact ⟨_, (buildDirect_panic_iff d title named _).mpr (Or.inr ⟨x, h1, rfl⟩)⟩
+  unfold buildOutlineResult resolveDest
+  split
+  · rename_i a b
+    cases hg : getObject os (a, b) with
+    | none =>
+      constructor
+      · rintro ⟨s, h⟩; simp at h
+      · rintro ⟨a, h, _⟩; simp only [] at h; rw [hg] at h; cases h
+    | some d' =>
+      show (∃ s, buildDirect d' title named = Outcome.panic s) ↔ _
+      rw [key d']; simp [hg]
+  · rename_i hnr
+    rw [key dest]
+    cases dest <;> simp
+    exact (hnr _ _ rfl).elim
+
+/-- **partial totality of `build_outline_result`** -/
+theorem buildOutlineResult_partial (os : Objects) (dest title : Obj) (named : Named)
+    (guard : ∀ a, resolveDest os dest = some (.arr a) → 2 ≤ a.length) (s : String) :
+    buildOutlineResult os dest title named ≠ .panic s := by
+  intro h
+  obtain ⟨a, h1, h2⟩ := (buildOutlineResult_panic_iff os dest title named).mp ⟨s, h⟩
+  have := guard a h1; omega
+
+/-- `get_outline` adds no panic of its own: it panics only through `build_outline_result` -/
+theorem getOutline_panic (os : Objects) (node : Dict) (named : Named) (s : String)
+    (h : getOutline os node named = .panic s) :
+    ∃ dest title, buildOutlineResult os dest title named = .panic s := by
+  unfold getOutline at h
+  repeat' split at h
+  all_goals first
+    | (simp at h; done)
+    | exact ⟨_, _, h⟩
+
+theorem firstStep_no_panic (walk : Dict → List Outline → Named → WalkRes) (os : Objects)
+    (hw : ∀ n a m s, walk n a m ≠ some (.panic s)) (node : Dict) (st : List Outline × Named) (s : String) :
+    firstStep walk os node st ≠ some (.panic s) := by
+  unfold firstStep
+  split
+  · simp
+  · split
+    · simp
+    · split
+      · simp
+      · rename_i sub other hne
+        intro h; exact hw _ _ _ _ h
+
+theorem nextStep_no_panic (walk : Dict → List Outline → Named → WalkRes) (os : Objects)
+    (hw : ∀ n a m s, walk n a m ≠ some (.panic s)) (node : Dict) (r : WalkRes) (s : String)
+    (hr : r ≠ some (.panic s)) : nextStep walk os node r ≠ some (.panic s) := by
+  unfold nextStep
+  split
+  · split
+    · exact hw _ _ _ _
+    · simp
+  · exact hr
+
+/-- the walker adds no panic of its own either: if `get_outline` cannot panic on this document,
+`get_outlines` (any fuel, any start node) does not panic -/
+theorem walkOutlines_no_own_panic (os : Objects)
+    (hsafe : ∀ node named s, getOutline os node named ≠ .panic s) :
+    ∀ (fuel : Nat) (node : Dict) (acc : List Outline) (named : Named) (s : String),
+      walkOutlines os fuel node acc named ≠ some (.panic s) := by
+  intro fuel
+  induction fuel with
+  | zero => intro node acc named s; simp [walkOutlines]
+  | succ n ih =>
+    intro node acc named s
+    unfold walkOutlines
+    split
+    · rename_i s' hp; exact absurd hp (hsafe _ _ _)
+    · exact nextStep_no_panic _ os ih node _ s (firstStep_no_panic _ os ih node _ s)
+
+/-! ### non-termination on cyclic links (F-C13-b, F-C13-b2) -/
+
+def catRef : Dict := [(ROOT, .ref 1 0)]
+
+/-- outline item 11 whose `Next` is itself -/
+def nextCycleDoc : Objects :=
+  [((1, 0), .dict [(K_Outlines, .ref 10 0)]),
+   ((10, 0), .dict [(K_First, .ref 11 0)]),
+   ((11, 0), .dict [(K_Title, .str [84] .lit), (K_Next, .ref 11 0)])]
+
+def item11 : Dict := [(K_Title, .str [84] .lit), (K_Next, .ref 11 0)]
+
+theorem nextCycle_walk : ∀ (n : Nat) (acc : List Outline) (named : Named),
+    walkOutlines nextCycleDoc n item11 acc named = none := by
+  intro n
+  induction n with
+  | zero => intro acc named; rfl
+  | succ n ih =>
+    intro acc named
+    unfold walkOutlines
+    have h1 : getOutline nextCycleDoc item11 named = .err "e" := by rfl
+    have h2 : getDictInDict nextCycleDoc item11 K_Next = some item11 := by rfl
+    have h3 : Dict.get item11 K_First = none := by rfl
+    simp only [h1, firstStep, nextStep, h3, h2]
+    exact ih _ _
+
+/-- **F-C13-b**: `get_outlines` (hence `get_toc`) does not terminate on a cyclic `Next` link:
+the fuelled model runs out of EVERY fuel. -/
+theorem getOutlines_next_cycle_diverges : ∀ n, getOutlines catRef nextCycleDoc n = none := by
+  intro n
+  unfold getOutlines
+  have hc : catalog catRef nextCycleDoc = some [(K_Outlines, .ref 10 0)] := by rfl
+  have ho : getDictInDict nextCycleDoc [(K_Outlines, .ref 10 0)] K_Outlines = some [(K_First, .ref 11 0)] := by rfl
+  have hf : getDictInDict nextCycleDoc [(K_First, .ref 11 0)] K_First = some item11 := by rfl
+  have hd : destTree nextCycleDoc [(K_Outlines, .ref 10 0)] = none := by rfl
+  simp only [hc, ho, hf, hd]
+  exact nextCycle_walk n [] []
+
+/-- outline item 11 whose `First` is itself -/
+def firstCycleDoc : Objects :=
+  [((1, 0), .dict [(K_Outlines, .ref 10 0)]),
+   ((10, 0), .dict [(K_First, .ref 11 0)]),
+   ((11, 0), .dict [(K_Title, .str [84] .lit), (K_First, .ref 11 0)])]
+
+def item11f : Dict := [(K_Title, .str [84] .lit), (K_First, .ref 11 0)]
+
+theorem firstCycle_walk : ∀ (n : Nat) (acc : List Outline) (named : Named),
+    walkOutlines firstCycleDoc n item11f acc named = none := by
+  intro n
+  induction n with
+  | zero => intro acc named; rfl
+  | succ n ih =>
+    intro acc named
+    unfold walkOutlines
+    have h1 : getOutline firstCycleDoc item11f named = .err "e" := by rfl
+    have h3 : Dict.get item11f K_First = some (.ref 11 0) := by rfl
+    have h4 : outlineNode firstCycleDoc (.ref 11 0) = some item11f := by rfl
+    simp only [h1, firstStep, nextStep, h3, h4, ih]
+
+/-- **F-C13-b2**: unbounded recursion of `get_outlines` on a cyclic `First` link -/
+theorem getOutlines_first_cycle_diverges : ∀ n, getOutlines catRef firstCycleDoc n = none := by
+  intro n
+  unfold getOutlines
+  have hc : catalog catRef firstCycleDoc = some [(K_Outlines, .ref 10 0)] := by rfl
+  have ho : getDictInDict firstCycleDoc [(K_Outlines, .ref 10 0)] K_Outlines = some [(K_First, .ref 11 0)] := by rfl
+  have hf : getDictInDict firstCycleDoc [(K_First, .ref 11 0)] K_First = some item11f := by rfl
+  have hd : destTree firstCycleDoc [(K_Outlines, .ref 10 0)] = none := by rfl
+  simp only [hc, ho, hf, hd]
+  exact firstCycle_walk n [] []
+
+/-- `get_toc` inherits the divergence -/
+theorem getToc_next_cycle_diverges (memMax : Nat) : ∀ n, getToc memMax catRef nextCycleDoc n = none := by
+  intro n; unfold getToc; rw [getOutlines_next_cycle_diverges]
+
+/-- **F-C13-c witness**: an outline item with `Dest []` -/
+theorem getOutlines_dest_empty_panics :
+    getOutlines catRef
+      [((1, 0), .dict [(K_Outlines, .ref 10 0)]), ((10, 0), .dict [(K_First, .ref 11 0)]),
+       ((11, 0), .dict [(K_Title, .str [84] .lit), (K_Dest, .arr [])])] 3 = some (.panic S_OUTLINE_0) := by rfl
+
+theorem getOutlines_dest_short_panics :
+    getOutlines catRef
+      [((1, 0), .dict [(K_Outlines, .ref 10 0)]), ((10, 0), .dict [(K_First, .ref 11 0)]),
+       ((11, 0), .dict [(K_Title, .str [84] .lit), (K_Dest, .arr [.ref 3 0])])] 3 = some (.panic S_OUTLINE_1) := by rfl
+
+/-- non-vacuity: a well-formed two-item outline is walked to the end with little fuel -/
+example : (getOutlines catRef
+      [((1, 0), .dict [(K_Outlines, .ref 10 0)]), ((10, 0), .dict [(K_First, .ref 11 0)]),
+       ((11, 0), .dict [(K_Title, .str [84] .lit), (K_Dest, .arr [.ref 3 0, .name [70]]), (K_Next, .ref 12 0)]),
+       ((12, 0), .dict [(K_Title, .str [85] .lit), (K_Dest, .arr [.ref 3 0, .name [70]])])] 3).isSome = true := by rfl
+
 end Lopdf
